@@ -1320,8 +1320,14 @@ fn a_rhs(rng: &mut Rng, vars: &[V], var_pct: u64) -> ARhs {
         _ => ARhs::R(a_atom(rng, vars, var_pct), rng.below(5) as usize),
     }
 }
-fn a_var(rng: &mut Rng, vars: &[V], want_list: bool) -> usize {
+fn a_var(rng: &mut Rng, vars: &[V], want_list: bool, hot: Option<usize>) -> usize {
     if want_list {
+        // a variable that was aliased a moment ago: its payloads are shared right now
+        if let Some(h) = hot {
+            if rng.chance(7, 10) && matches!(&vars[h], V::List(xs) if !xs.is_empty()) {
+                return h;
+            }
+        }
         for _ in 0..4 {
             let x = rng.below(vars.len() as u64) as usize;
             if matches!(&vars[x], V::List(xs) if !xs.is_empty()) {
@@ -1332,22 +1338,45 @@ fn a_var(rng: &mut Rng, vars: &[V], want_list: bool) -> usize {
     rng.below(vars.len() as u64) as usize
 }
 /// one candidate statement (may be rejected by the size guard of the caller)
-fn a_gen(rng: &mut Rng, vars: &[V], build: bool, ill: bool) -> AStmt {
+fn a_gen(rng: &mut Rng, vars: &[V], build: bool, ill: bool, hot: Option<usize>) -> AStmt {
     let n = vars.len() as u64;
     let y = rng.below(n) as usize;
     let form = if build {
         *rng.pick(&["as", "as", "as", "as", "si", "si", "ap", "ap", "ap", "sw"])
     } else {
-        *rng.pick(&["as", "si", "si", "si", "si", "ap", "ap", "ap", "po", "po", "rm", "rm", "co", "co", "sw", "sw"])
+        *rng.pick(&["as", "as", "si", "si", "si", "si", "ap", "ap", "ap", "po", "po", "rm", "rm", "co", "co", "sw", "sw"])
     };
-    let x = a_var(rng, vars, form != "as");
+    let x = a_var(rng, vars, form != "as", hot);
     // nothing to mutate yet: build instead
     let form = if !ill && form != "as" && form != "ap" && !matches!(&vars[x], V::List(l) if !l.is_empty()) { "as" } else { form };
-    let var_pct = if build { 75 } else { 45 };
+    let var_pct = if build { 75 } else { 60 };
     let poss = positions(&vars[x], rng);
     let is_list = |p: &Pos| p.kind == Kind::List;
     match form {
-        "as" => AStmt::As(y, a_rhs(rng, vars, var_pct)),
+        "as" => {
+            // mostly lists (an int assignment destroys structure that later statements could mutate)
+            let mut r = a_rhs(rng, vars, var_pct);
+            for _ in 0..3 {
+                let atom_only = match &r {
+                    ARhs::A(Atom::Var(v)) => !matches!(vars[*v], V::List(_)),
+                    ARhs::A(_) => true,
+                    ARhs::L(xs) => xs.is_empty(),
+                    ARhs::R(_, n) => *n == 0,
+                };
+                if !atom_only || rng.chance(1, 6) {
+                    break;
+                }
+                r = a_rhs(rng, vars, var_pct);
+            }
+            // prefer overwriting a variable that holds no list
+            let mut y = y;
+            for _ in 0..2 {
+                if matches!(&vars[y], V::List(l) if !l.is_empty()) {
+                    y = rng.below(n) as usize;
+                }
+            }
+            AStmt::As(y, r)
+        }
         "si" => {
             let mut path = match pick_pos(rng, &poss, &|p| !p.path.is_empty()) {
                 Some(p) => p.path.clone(),
@@ -1429,7 +1458,7 @@ fn a_gen(rng: &mut Rng, vars: &[V], build: bool, ill: bool) -> AStmt {
             AStmt::Co(y, x, ints_of(&path))
         }
         _ => {
-            let x2 = if rng.chance(1, 4) { x } else { a_var(rng, vars, true) };
+            let x2 = if rng.chance(1, 4) { x } else { a_var(rng, vars, true, hot) };
             let poss2 = positions(&vars[x2], rng);
             let mut p1 = pick_pos(rng, &poss, &|_| true).map(|p| p.path.clone()).unwrap_or_default();
             let mut p2 = pick_pos(rng, &poss2, &|_| true).map(|p| p.path.clone()).unwrap_or_default();
@@ -1486,13 +1515,14 @@ fn run_a_shard(mut rng: Rng, n_hist: usize, max_len: usize, driver: &str) -> Loc
         let mut vars = vec![V::Null; nvars];
         let mut h = AHist { nvars, recs: vec![] };
         let build_len = 2 + len / 3;
+        let mut hot: Option<usize> = None;
         for i in 0..len {
             let build = i < build_len && rng.chance(4, 5);
             let ill = !build && rng.chance(15, 100);
             // size guard: regenerate a statement that would make a value too big
             let mut chosen = None;
             for _ in 0..8 {
-                let st = a_gen(&mut rng, &vars, build, ill);
+                let st = a_gen(&mut rng, &vars, build, ill, hot);
                 let mut trial = vars.clone();
                 let ok = a_apply(&mut trial, &st);
                 if trial.iter().all(|v| v.size() <= MAX_NODES && v.max_len() <= MAX_LEN) {
@@ -1507,6 +1537,21 @@ fn run_a_shard(mut rng: Rng, n_hist: usize, max_len: usize, driver: &str) -> Loc
                 (st, trial, ok)
             });
             let shared = st.mutated().iter().any(|(x, p)| probe_shared(&interp, VARS[*x], &ipath(p)));
+            // a statement that copies a list out of a variable makes that variable (and the target) "hot"
+            let rhs_var = |r: &ARhs| -> Option<usize> {
+                let atoms: Vec<&Atom> = match r {
+                    ARhs::A(a) | ARhs::R(a, _) => vec![a],
+                    ARhs::L(xs) => xs.iter().collect(),
+                };
+                atoms.iter().find_map(|a| if let Atom::Var(v) = a { if matches!(vars[*v], V::List(_)) { Some(*v) } else { None } } else { None })
+            };
+            hot = match &st {
+                AStmt::As(x, r) | AStmt::Si(x, _, r) | AStmt::Ap(x, _, r) => match rhs_var(r) {
+                    Some(v) => Some(if rng.chance(1, 2) { v } else { *x }),
+                    None => hot,
+                },
+                _ => hot,
+            };
             let src = st.src();
             let out = interp.eval(&src);
             let dump = dump_real(&interp, &names);
@@ -1589,6 +1634,8 @@ enum Clo {
 struct Store {
     vars: Vec<V>,
     clos: Vec<Clo>,
+    /// generator hint (not part of the state): a variable whose value was copied a moment ago
+    hot: Option<usize>,
 }
 impl Store {
     fn dump(&self, ok: bool) -> String {
@@ -1852,6 +1899,11 @@ fn parent_of(p: &[Ix]) -> Vec<Ix> {
 }
 fn pick_var(rng: &mut Rng, st: &Store, want: &dyn Fn(&V) -> bool) -> usize {
     let n = st.vars.len() as u64;
+    if let Some(h) = st.hot {
+        if h < st.vars.len() && rng.chance(1, 2) && want(&st.vars[h]) {
+            return h;
+        }
+    }
     for _ in 0..4 {
         let x = rng.below(n) as usize;
         if want(&st.vars[x]) {
@@ -2445,6 +2497,14 @@ fn b_step(loc: &mut Local, interp: &Interp, store: &mut Store, srcs: &mut Vec<St
     let shared = g.probe.iter().any(|(x, p)| probe_shared(interp, VARS[*x], p));
     let out = interp.eval(&g.src);
     *store = new_store;
+    if g.copies_container {
+        // the variable whose container was just copied / passed is a good target for the next mutation
+        let rhs = g.src.splitn(2, '=').nth(1).unwrap_or("");
+        let mentioned: Vec<usize> = (0..store.vars.len()).filter(|i| rhs.contains(VARS[*i])).collect();
+        if !mentioned.is_empty() {
+            store.hot = Some(mentioned[(*hash % mentioned.len() as u64) as usize]);
+        }
+    }
     let mut ok = ok;
     if let Eff::Adopt { y } = &g.eff {
         // the reference semantics does not know this function: take the real result for the target
@@ -2512,7 +2572,7 @@ fn run_b_shard(mut rng: Rng, n_hist: usize, max_len: usize) -> Local {
         interp.eval(STRUCT_DECL);
         let mut srcs = vec![STRUCT_DECL.to_string()];
         let mut hash = fnv(0xcbf29ce484222325, STRUCT_DECL);
-        let mut store = Store { vars: vec![], clos: vec![] };
+        let mut store = Store { vars: vec![], clos: vec![], hot: None };
         let mut alive = true;
         // declarations (aliased on purpose: later declarations mention earlier variables)
         for i in 0..nvars {
